@@ -242,7 +242,7 @@ def scenarios(pid, tier, seed):
             # depth 5: the first depth at which two root moves' subtrees share a position with two or more plies still to
             # search.  Decided by the harness against a plain minimax over the engine's own generator and leaf score
             # (the extracted model needs ~25 s per depth-5 position; it is the oracle of the thorough tier's sample below)
-            {"args": ["scen", "family=searches", "depths=5", "pools=1,4", "selfmm=1", "maxpieces=4", "walkpos=%d" % (400 if q else 1200), "game=%d" % (0 if q else 2), S], "shards": 16},
+            {"args": ["scen", "family=searches", "depths=5", "pools=1,4", "selfmm=1", "maxpieces=4", "walkpos=%d" % (256 if q else 1200), "game=%d" % (0 if q else 2), S], "shards": 16},
             # "parallelism changes speed only": perturbed schedules with the cache-write observer (one key, one value), answers equal to the model's minimax
             {"args": ["scen", "family=schedules", "pid=C08", "depths=%s" % ("2" if q else "2,3"), "per=%d" % (4 if q else 10), "walkpos=%d" % (0 if q else 80), "maxpieces=%d" % (4 if q else 12), S], "shards": 16},
             # the score the real watch loop shows for every searched move
